@@ -23,14 +23,14 @@ CLAIMED = {
         "category": "exploration",
         "text": "Real SimpleNode/NetworkEnvelope/message classes run over a simulated TCP byte stream against a stub peer; a strict reference parser on exactly the delivered bytes is the model (refinement, oracle P1), outbound bytes are decoded by independent layouts (P2), protocol reactions (P3) and bounded liveness against an honest peer (P4). Seeded search over sessions, chatter, fragmentation, EOF, corruption and Byzantine envelopes, plus exhaustive enumeration of EOF at every offset and one bit flip at every byte of fixed base sessions. A clean batch is evidence, not proof.",
         "design_ref": "DESIGN.md 5.1, 6 (C19)",
-        "note": "Trusted: CPython, hashlib, ref/p2p.py strict parser and layouts, the simulator core. Width-boundary sweeps of the primitive codecs are only sampled through message contents. One open known finding (version port byte order).",
+        "note": "Trusted: CPython, hashlib, ref/p2p.py strict parser and layouts, the simulator core. The primitive codecs are exercised in-stream by the 'fields' operation (records of compact sizes across every width boundary, var-strings and LE/BE integers encoded by the library, echoed, decoded field by field; all ordered pairs of boundary values enumerated) and header objects through observe/mutate histories. One open known finding (version port byte order). Commands are ASCII names (no NUL bytes inside).",
         "technique": "deterministic simulation of a TCP session with fault injection; refinement against a strict reference parser on the delivered bytes",
     },
     "C17": {
         "category": "exploration",
         "text": "SPV sessions of the real client (get_filtered_txs, wait_for(HeadersMessage/Block), MerkleBlock.is_valid/proved_txs, HeadersMessage.is_valid, Block.check_pow/validate_merkle_root) against an honest or lying stub peer serving a synthetic chain: every validated proof yields only txids of the block (M1), honest proofs yield exactly the matched ids (M2), header verdicts equal the reference PoW/linkage (M3). Alterations are the property's catalogue injected in flight.",
         "design_ref": "DESIGN.md 5.1, 6 (C17)",
-        "note": "Trusted: ref/merkle.py (BIP37 builder, consensus root), ref/p2p.py (SetCompact, PoW), stub peer's ground truth. merkle_root/bits/retarget equalities are pure and only sampled through the served chain; calculate_new_bits is not exercised.",
+        "note": "Trusted: ref/merkle.py (BIP37 builder, consensus root), ref/p2p.py (SetCompact, PoW), stub peer's ground truth. merkle_root/bits/retarget equalities are pure and sampled through the served chain and the retarget / header_edits operations (incl. negative, zero and overflowing compact targets served by a Byzantine peer). One open known finding (a proof over the block's first interior level validates: leaf/interior ambiguity). BIP37 strictness beyond the statement (left-over hashes or flag bits) is not demanded.",
         "technique": "deterministic simulation of an SPV session against a Byzantine peer; ground-truth oracle from the peer's chain",
     },
 }
@@ -39,14 +39,14 @@ CLAIMED["C20"] = {
     "category": "exploration",
     "text": "Senders (real BCURMulti/BCURSingle encode) -> simulated camera channel with frame loss, duplication, rotation, reordering, corruption, cross-talk and relabelling -> naive and collecting receivers calling the real parse: whatever parse returns is bit-for-bit one sender's payload (A1/A2), a clean in-order delivery always reassembles for every length / chunk size / CBOR class (A3), and a looping sender is reassembled within two clean loops after faults stop (A4). Seeded search plus enumeration of every sequence of parts for part counts <= 4 and of every position x replacement character of sampled parts.",
     "design_ref": "DESIGN.md 5.7, 6 (C20)",
-    "note": "Trusted: CPython, binascii/hashlib, the simulator core; the collecting receiver is harness code. CBOR prefixes are checked for invertibility only. A clean batch is evidence, not proof.",
+    "note": "Trusted: CPython, binascii/hashlib, the simulator core; the collecting receiver is harness code. CBOR prefixes are checked for invertibility only. Senders may redraw the animation (repeated encode() on one object). A clean batch is evidence, not proof.",
     "technique": "deterministic simulation of a lossy one-way frame channel with fault injection; ground-truth oracle on the reassembled payload",
 }
 CLAIMED["C15"] = {
     "category": "exploration",
     "text": "Dealer (real generate_shares under a simulated RNG incl. adversarial and replayed streams), n custodians, an arrival channel with loss, duplication, order, word corruption, swaps, truncation and mixing of splits, and a recoverer that attempts recovery between arrivals and reuses one ShareSet with several passphrases: >= k distinct genuine shares alone always recover the exact mnemonic (V1), < k never return (V2), <= 3-word corruption and mixed splits are rejected (V3), anything returned is the original (V4), share text / encryption round-trip and recovery is history-independent (V5). Published SLIP39 vectors serve as shares from another implementation. Seeded search plus enumeration over (k, n) pairs and subset sizes k-1, k, k+1, n.",
     "design_ref": "DESIGN.md 5.6, 6 (C15)",
-    "note": "Trusted: CPython, hashlib PBKDF2/HMAC, the dealer's own mnemonic as ground truth, the published vectors (data). 2^-32 digest coincidences are treated as impossible. GF(256) table identities are not part of this check.",
+    "note": "Trusted: CPython, hashlib PBKDF2/HMAC, the dealer's own mnemonic as ground truth, the published vectors (data). 2^-32 digest coincidences are treated as impossible. Interpolation identities are checked on the share points of each run (not the GF(256) tables exhaustively). Share objects are exported repeatedly; n shares are expected for every (k, n) including k = 1.",
     "technique": "deterministic simulation of dealer/custodians/recoverer with RNG seam and share-channel fault injection; ground-truth oracle",
 }
 
@@ -54,7 +54,7 @@ CLAIMED["C05"] = {
     "category": "exploration",
     "text": "One Tx object per run and a generated history of digest queries (original algorithm, BIP143, BIP341/342; direct methods and the dispatcher; hash types 0,1,2,3,0x81,0x82,0x83; eight input kinds, annex on/off) interleaved with edits of every committed and uncommitted field, reverts, clone and re-parse. Every query is compared with an independent implementation of the three specifications on a plain-data mirror of the current state (H1, refinement) and with the same query on a freshly re-parsed copy (H2, history independence).",
     "design_ref": "DESIGN.md 5.3, 6 (C05)",
-    "note": "Trusted: CPython, hashlib, ref/sighash.py + ref/txmodel.py (self-tested on the BIP143 digests for all six hash types, the BIP341 wallet vectors and published signatures). Coverage is sampled, not exhaustive; OP_CODESEPARATOR and non-standard script codes are not generated.",
+    "note": "Trusted: CPython, hashlib, ref/sighash.py + ref/txmodel.py (self-tested on the BIP143 digests for all six hash types, the BIP341 wallet vectors and published signatures). Coverage is sampled, not exhaustive; OP_CODESEPARATOR and non-standard script codes are not generated. Spent outputs are handed to the object or (fetched plans) looked up by it in the fetcher cache while the outpoint moves; taproot leaves are replaced by hand and through initialize_p2tr_multisig; output scripts with non-minimal pushes are included.",
     "technique": "deterministic simulation of an operation history on one object; step-by-step refinement against a reference model",
 }
 CLAIMED["C06"] = {
@@ -69,7 +69,7 @@ CLAIMED["C04"] = {
     "category": "exploration",
     "text": "The real TxFetcher (fetch, lazy value/script/fee look-ups, dump_cache/load_cache, process-wide cache) runs against stub block explorers that serve a generated chain database honestly or with one of 15 response behaviours (wrong tx, tweaked field, truncation at k, garbage, not hex, empty, trailing bytes, whitespace/upper case, witness stripped/malleated, non-canonical re-encoding, HTTP error, timeout, connection error, slow), with restarts and torn cache-file writes: every returned or cached transaction hashes to the id it was requested under (F1), honest canonical responses are accepted and re-serialise byte-exactly (F2), segwit ids are witness-stripped hashes and survive witness malleation (F3), the cache survives dump/restart/load (F4). Truncation at every offset of sampled responses is enumerated.",
     "design_ref": "DESIGN.md 5.2, 6 (C04)",
-    "note": "Trusted: ref/txmodel.py. Only the fetcher clause and txid definition are decided by simulation; the for-all-encodings round-trip clauses are sampled through the served transactions (push lengths 0..520 incl. 75/76/255/256, counts up to 300, witness items up to 70000 bytes), not enumerated. The cache file is trusted by design (no bit-rot), torn writes are injected.",
+    "note": "Trusted: ref/txmodel.py. Only the fetcher clause and txid definition are decided by simulation; the for-all-encodings round-trip clauses are sampled through the served transactions (push lengths 0..520 incl. 75/76/255/256, counts up to 300, witness items up to 70000 bytes), not enumerated. Disk faults: torn writes, disk full part-way through a write, one stored character flipped between dump and load (enumerated over positions). Object histories on fetched/API-built transactions (edits, in-place list edits, read-only uses, late witnesses). Open known findings: legacy transactions without inputs (format ambiguity).",
     "technique": "deterministic simulation of client/explorer/disk with response and disk fault injection; ground-truth oracle from the stub's chain database",
 }
 
@@ -77,7 +77,7 @@ CLAIMED["C13"] = {
     "category": "exploration",
     "text": "Two-round MuSig among 2-5 simulated participants and an aggregator, each building its own MuSigTapScript from the keys in its own arrival order, nonces from a seeded or boundary-valued RNG behind buidl.taproot.randbelow, 1-2 sessions on the same objects (plain and taproot-tweaked), with duplicate / dropped / bit-flipped / stale partial signatures, nonces corrupted towards a subset and participant crash-restart between rounds: all parties agree on the aggregate key (U1), a returned signature verifies under an independent BIP340 verifier (U2), get_signature returns exactly when one consistent partial signature per participant arrived (U3), honest sessions succeed (U4); k-of-n trees: leaf count C(n,k), each k-subset owns exactly one leaf and a spend of it by that subset verifies in the library and under a reference script-path check (U5).",
     "design_ref": "DESIGN.md 5.5, 6 (C13)",
-    "note": "Trusted: ref/secp.py, ref/sighash.py. The aggregate key is the library's own definition (not compared with BIP327). One open known finding (nonce sums at the point at infinity). pecc is slow (45 ms per scalar multiplication): ~30 k runs/hour.",
+    "note": "Trusted: ref/secp.py, ref/sighash.py. The aggregate key is the library's own definition (not compared with BIP327). One open known finding (nonce sums at the point at infinity). Sessions may be retries of the same message on the same objects (bounded liveness once faults stop); the dealer may produce further trees from one object before the first is used; an input may first be initialised for another subset's leaf. pecc is slow (45 ms per scalar multiplication): ~20 k runs/hour.",
     "technique": "deterministic simulation of a multi-party signing protocol with message-fault injection and RNG seam; independent BIP340 verification",
 }
 
@@ -85,14 +85,14 @@ CLAIMED["C10"] = {
     "category": "exploration",
     "text": "A signing ceremony of coordinator (creator/updater/combiner/finaliser/extractor) and n signers, all running the real PSBT code, over an explicit delivery schedule (star, chain, gossip) with duplicated, stale, lost and bit-flipped messages, cross-talk from another spend, crash-restart from the last stored serialisation, and Byzantine signers: every emitted message is a codec fixed point with a non-witness unsigned transaction (Q1, Q2); the combiner's bytes and the extracted transaction equal those of the canonical schedule for the same signer set (Q3, library against library); a transaction is extracted exactly when every input has the threshold of script-key signatures, and it is authorised per the reference (Q4); messages with a partial signature the reference finds invalid are rejected at load (Q5); different transactions do not combine (Q6); fault-free ceremonies complete (Q7). All signer subsets and arrival orders of a 2-of-3 are enumerated.",
     "design_ref": "DESIGN.md 5.4, 6 (C10)",
-    "note": "Trusted: ref/psbtmap.py, ref/stdverify.py, ref/secp.py, ref/sighash.py, ref/wallet.py. Byte-equality with the canonical schedule is demanded only when no corrupted message was accepted. pecc is slow: ~10 k runs/hour; quorums up to 3 (thorough: 4), 1-3 inputs.",
+    "note": "Trusted: ref/psbtmap.py, ref/stdverify.py, ref/secp.py, ref/sighash.py, ref/wallet.py. Byte-equality with the canonical schedule is demanded only when no corrupted message was accepted. Third-party creator/finaliser shapes (both UTXO records, previous transaction only, no empty final-scriptSig record), account paths of depth 0..4, parsing with and without a network argument, re-tagged and UTXO-stripped signatures, in-place finalisation and operand reuse are part of the workload. Not simulated: PSBTs of several wallets in one transaction, testnet keys. pecc is slow: ~6-10 k runs/hour; quorums up to 3 (thorough: 4), 1-3 inputs.",
     "technique": "deterministic simulation of a multi-party PSBT workflow with message-fault injection and crash-restart; confluence against a canonical schedule plus reference verification",
 }
 CLAIMED["C11"] = {
     "category": "exploration",
     "text": "An honest signer reviews (describe_basic_multisig) every PSBT it receives from a coordinator whose message is honest, tampered in flight with one entry of the property's catalogue, or hit by random byte corruption, before signing: the summary's fee and totals equal the stub's ground truth and are conserved (R1); every output labelled change commits, in the received unsigned transaction, to the wallet's m-of-n script made of exactly one derived key per cosigner (R2); honest PSBTs are summarised (R3). The catalogue is enumerated against P2SH and P2WSH wallets in the quick tier.",
     "design_ref": "DESIGN.md 5.4, 6 (C11)",
-    "note": "Weakest fit for this technique: a per-message check in a two-party setting, no ordering dimension. Trusted: ref/wallet.py, ref/psbtmap.py. One open known finding (witness-UTXO amounts are not verifiable). p2sh-p2wsh is not supported by the summary and not exercised.",
+    "note": "Weakest fit for this technique: a per-message check in a two-party setting, no ordering dimension. Trusted: ref/wallet.py, ref/psbtmap.py. One open known finding (witness-UTXO amounts of pure p2wsh inputs are not verifiable from the PSBT; not raised when the signer first updates from its own records). Quorums up to 15-of-15 in the enumerated families. p2sh-p2wsh is not supported by the summary and not exercised.",
     "technique": "deterministic simulation of a coordinator-signer exchange with Byzantine-coordinator tampering and byte corruption in flight; ground-truth oracle from an independent wallet model",
 }
 
